@@ -6,7 +6,7 @@ CONSTANTS
   ExpSamples = FALSE
   OptImpl = "fixed"
   Ctor = "bare"
-  N = 3
+  N = 2
   Chans = 1
   Temps = {"any"}
   Acts = {"temp", "hard", "gumbel", "disable", "mode", "fwd", "alpha", "load", "summary", "export"}
@@ -15,6 +15,8 @@ CONSTANTS
   Moves = "gen"
   InitAlpha = "ctor"
   AllowKF = TRUE
+  Grads = {TRUE, FALSE}
+  SelHows = {}
 INVARIANT TypeOK
 INVARIANT SampledIsProb
 INVARIANT OneHotAtArgmax
@@ -23,6 +25,7 @@ INVARIANT SoftKeepsWinner
 INVARIANT ReportIsArgmax
 INVARIANT ExportIsArgmax
 INVARIANT ReportIsExport
+INVARIANT ForwardSamples
 PROPERTY DisabledKeeps
 PROPERTY ThetaOnlyBySampling
 PROPERTY AlphaOnlyByWrites
